@@ -161,6 +161,9 @@ def class_creation(run, model, rule="C14.class-creation"):
 
 def run(run, model):
     run.do(class_creation, model)
+    # a call whose contracts hold is not rejected for its argument names unless they really are reserved
+    from . import c19
+    run.do(c19.validators, model, "C14.no-spurious-rejection", "C14.no-spurious-rejection")
     run.do(gates.c02_result_identity, model, "C14.result-identity", "C14.forward")
     run.do(gates.c02_exc_transparent, model, "C14.exc-transparent")
     run.do(c05.order_identity, model, "C14.forward-order", "C14.forward")
